@@ -71,6 +71,8 @@ def canon(v, oracle, depth=0):
         return tuple(sorted(map(str, v)))
     if isinstance(v, tuple):
         return tuple(canon(x, oracle, depth + 1) for x in v)
+    if type(v).__name__ == 'ARecord':
+        return (v.rtype.name,) + tuple(canon(x, oracle, depth + 1) for x in v.values)
     if isinstance(v, (int, str, bytes, bool, type(None))):
         return v
     return type(v).__name__
@@ -177,7 +179,8 @@ class ReaderK1(object):
                 got = concrete(got)
                 if got is not exp:
                     problems.append(('wrong-encoding', i, sid, got, exp))
-            kb = concrete(params.get('keep_bytes'))
+            from sa.props.reader_rules import content_param
+            kb = concrete(params.get(content_param(fi, 'keep_bytes')))
             return Unk('content', kinds=['bytes'] if kb is True else ['str', 'bytes'], taint=['INPUT'])
 
         I.stubs[R.header_fn.qualname] = header_stub
